@@ -62,6 +62,23 @@ class VLoop(asyncio.BaseEventLoop):
         self._run_handle(h)
         return True
 
+    def step_where(self, pred):
+        """run the first ready handle satisfying pred (a predicate over Handle); False if there is none"""
+        for h in self.live_ready():
+            if pred(h):
+                self._ready.remove(h)
+                self._run_handle(h)
+                return True
+        return False
+
+    def quiesce_where(self, pred, limit=200000):
+        n = 0
+        while self.step_where(pred):
+            n += 1
+            if n > limit:
+                raise Hang("livelock: handle limit exceeded")
+        return n
+
     def _run_handle(self, h):
         self.handles_run += 1
         prev = events._get_running_loop()
